@@ -107,8 +107,9 @@ func (parser *CefLogParser) ParseEntry(rawData string) (*ParsedLogEntry, error) 
 		rawLogEntry[1] = strings.TrimSuffix(rawLogEntry[1], SpaceDelimiter+NewAuditLogChainSuffix)
 	}
 	// handle chain=end case (check additionally that message is expected)
-	if strings.Contains(rawLogEntry[0], EndOfAuditLogChainSuffix) {
-		if strings.Contains(rawLogEntry[0], EndOfAuditLogChainMessage) {
+	// (values and keys are escaped by formatter, so only whole header field may be enclosed with unescaped dividers)
+	if strings.Contains(rawLogEntry[0]+SpaceDelimiter, EndOfAuditLogChainSuffix+SpaceDelimiter) {
+		if strings.Contains(rawLogEntry[0], defaultMessageDivider+EndOfAuditLogChainMessage+defaultMessageDivider) {
 			parsedLogEntry.IsEndChain = true
 		}
 	}
@@ -136,8 +137,9 @@ func (parser *PlaintextLogParser) ParseEntry(rawData string) (*ParsedLogEntry, e
 		rawLogEntry[1] = strings.TrimSuffix(rawLogEntry[1], SpaceDelimiter+NewAuditLogChainSuffix)
 	}
 	// handle chain=end case (check additionally that message is expected)
-	if strings.Contains(rawLogEntry[0], EndOfAuditLogChainSuffix) {
-		if strings.Contains(rawLogEntry[0], EndOfAuditLogChainMessage) {
+	// (quotes inside of values are escaped by formatter, so only the whole message may look like this)
+	if strings.Contains(rawLogEntry[0]+SpaceDelimiter, SpaceDelimiter+EndOfAuditLogChainSuffix+SpaceDelimiter) {
+		if strings.Contains(rawLogEntry[0]+SpaceDelimiter, fmt.Sprintf(" %s=%q ", logrus.FieldKeyMsg, EndOfAuditLogChainMessage)) {
 			parsedLogEntry.IsEndChain = true
 		}
 	}
